@@ -65,6 +65,21 @@ var verifC15Src = []string{
 	   while true do @i := @i + 1; if @lim <= @i then return @i; end if; end while;
 	 end;
 	 var @res := firstge(@n);`,
+	// 10: a declaration made before CONTINUE must not survive into the next iteration
+	`var @i := 0; var @sum := 0;
+	 while @i < @n do
+	   @i := @i + 1;
+	   var @cur := @i * 10;
+	   if @i = @skip then continue; end if;
+	   @sum := @sum + @cur;
+	 end while;`,
+	// 11: the same through CASE and a nested block, with BREAK
+	`var @i := 0; var @sum := 0;
+	 while @i < @n do
+	   @i := @i + 1;
+	   var @cur := @i;
+	   case when @i = @skip then continue; when @i = @stop then break; else @sum := @sum + @cur; end case;
+	 end while;`,
 }
 
 var verifC15Progs [][]parser.Statement
@@ -195,6 +210,25 @@ func VerifC15Programs() {
 			want = 1
 		}
 		verifAssert("RETURN from inside a loop", get("res") == want)
+	case 10, 11:
+		var i, sum int64
+		for i < n {
+			i++
+			if i == skip {
+				continue
+			}
+			if pi == 11 && i == stop {
+				break
+			}
+			if pi == 10 {
+				sum += i * 10
+			} else {
+				sum += i
+			}
+		}
+		verifAssert("loop with a declaration before CONTINUE: counter", get("i") == i)
+		verifAssert("loop with a declaration before CONTINUE: sum", get("sum") == sum)
+		verifAssert("loop-local declaration is gone", !verifHasVar(scope, "cur"))
 	}
 	verifAssert("global inputs untouched", get("x") == x && get("y") == y)
 	verifObserve("flow", int64(flow))
